@@ -20,7 +20,7 @@ BEGIN_END = re.compile(r"\\(begin|end)\{([A-Za-z*]+)\}")
 
 
 def _mix(i, p, k):
-    return ((i * 2654435761 + p * 40503 + 31337) >> 8) % k
+    return ce.mix(i, p, k, 20)
 
 
 # ------------------------------------------------------------------------------------------------- alphabet
@@ -47,8 +47,9 @@ def register_alphabets():
     xs = [lambda i, p: E("C", {"C": 1e-6 * (p + 1)}), lambda i, p: E("L", {"L": 1e-5 * (p + 1)}), lambda i, p: E("Q", {"Y": 1e-5, "n": 0.8}, "dl" + str(p)),
           lambda i, p: E("W", {"Y": 1e-3, "n": 0.5}), lambda i, p: E("C", {"C": 2e-6}, f"c{p}")]
     sp = [lambda i, p: E("R", {"R": 0.0}), lambda i, p: E("R", {"R": INF})]
+    light = [t for k, t in enumerate(tv) if k not in (4, 5, 10)]      # the general (two resistive phases) and nested forms are slow in sympy: contexts part only
     ce.ALPHABETS["c20"] = [lambda i, p: rs[_mix(i, p, len(rs))](i, p), lambda i, p: xs[_mix(i, p, len(xs))](i, p),
-                           lambda i, p: sp[_mix(i, p, 2)](i, p), lambda i, p: tv[_mix(i, p, len(tv))]]
+                           lambda i, p: sp[_mix(i, p, 2)](i, p), lambda i, p: light[_mix(i, p, len(light))]]
     ce.ALPHABETS["c20-plain"] = [ce.ALPHABETS["c20"][0], ce.ALPHABETS["c20"][1]]
     return tv
 
@@ -233,23 +234,34 @@ def make_jobs(a, tv):
     jobs = []
     u = 1 if quick else 2
     for n in (1, 2, 3):
-        jobs += ce.product_jobs("exhaustive<=3", ce.shapes(n, u), "c20", block=64)
+        if quick and n == 3:
+            s30 = ce.shapes(3, 0)
+            jobs += ce.product_jobs("exhaustive<=3", s30, "c20", block=64)
+            jobs += ce.sample_jobs("3-leaves:one-child:sampled", [s for s in ce.shapes(3, 1) if s not in set(s30)], "c20", 32, a.seed + 20, group=2)
+        elif not quick and n == 3:
+            s31 = ce.shapes(3, 1)
+            jobs += ce.product_jobs("exhaustive<=3", s31, "c20", block=64)
+            jobs += ce.sample_jobs("3-leaves:two-one-child:sampled", [s for s in ce.shapes(3, 2) if s not in set(s31)], "c20", 16, a.seed + 20, group=2)
+        else:
+            jobs += ce.product_jobs("exhaustive<=3", ce.shapes(n, u), "c20", block=64)
     s40 = ce.shapes(4, 0)
     s41 = [s for s in ce.shapes(4, 1) if s not in set(s40)]
     if quick:
         jobs += ce.product_jobs("4-leaves:plain", s40, "c20-plain", block=64)
-        jobs += ce.sample_jobs("4-leaves:sampled", s40, "c20", 8, a.seed + 21, group=4)
+        jobs += ce.sample_jobs("4-leaves:sampled", s40, "c20", 6, a.seed + 21, group=4)
         jobs += ce.sample_jobs("4-leaves:sampled", s41, "c20", 1, a.seed + 22, group=40)
-        bound = ("every topology with <= 3 leaves and <= 1 one-child connection x 4-class alphabet exhaustively; every 4-leaf topology without one-child connections x {R, reactive} "
-                 "exhaustively; 4-leaf topologies x 4-class alphabet sampled (8 resp. 1 per topology)")
+        bound = ("every topology with <= 2 leaves and <= 1 one-child connection and every 3-leaf topology without x 4-class alphabet exhaustively; the 96 3-leaf topologies with one "
+                 "one-child connection x 32 sampled assignments; every 4-leaf topology without one-child connections x {R, reactive} "
+                 "exhaustively; 4-leaf topologies x 4-class alphabet sampled (6 resp. 1 per topology)")
     else:
         jobs += ce.product_jobs("4-leaves:full", s40, "c20", block=64)
         jobs += ce.sample_jobs("4-leaves:sampled", s41, "c20", 6, a.seed + 22, group=8)
         s50 = ce.shapes(5, 0)
         jobs += ce.product_jobs("5-leaves:plain", s50, "c20-plain", block=32)
         jobs += ce.sample_jobs("5-leaves:sampled", s50, "c20", 6, a.seed + 23, group=8)
-        bound = ("every topology with <= 3 leaves and <= 2 one-child connections and every 4-leaf topology without x 4-class alphabet, every 5-leaf topology without one-child connections x "
-                 "{R, reactive} exhaustively; 4-leaf topologies with a one-child connection and 5-leaf topologies x 4-class alphabet sampled (6 per topology)")
+        bound = ("every topology with <= 2 leaves and <= 2 one-child connections, every 3-leaf topology with <= 1 and every 4-leaf topology without x 4-class alphabet, every 5-leaf topology without one-child connections x "
+                 "{R, reactive} exhaustively; the 560 3-leaf topologies with two one-child connections x 16 sampled assignments; 4-leaf topologies with a one-child connection and 5-leaf "
+                 "topologies x 4-class alphabet sampled (6 per topology)")
     # every registered element type and every container variant, alone and in small contexts
     r0, c0 = E("R", {"R": 50.0}, "s"), E("C", {"C": 1e-5})
     leaves = [E(sym) for sym in sorted(ce.classes())] + [E(sym, label="lb") for sym in sorted(ce.classes())] + tv
@@ -261,7 +273,7 @@ def make_jobs(a, tv):
         jobs.append(("all-element-types", "list", tuple(specs[i:i + 12])))
     # larger random circuits
     rng = np.random.default_rng(a.seed + 9)
-    n_rand = 150 if quick else 2500
+    n_rand = 150 if quick else 1000
     mk = ce.ALPHABETS["c20"] + ce.ALPHABETS["c20-plain"] * 2
     rand = []
     for i in range(n_rand):
@@ -280,7 +292,7 @@ def main(a):
     CTX["DRAW_MOD"] = 40 if a.tier == "quick" else 60
     jobs, bound, n_rand, n_leaf, n_ctx = make_jobs(a, tv)
     res = Result("C20", f"{bound}; alphabet classes = R (plain / labelled / label with underscore), reactive (C, L, Q, W, labelled or not), open-or-short leaf (R=inf / R=0), Tlm container "
-                 f"({len(tv)} variants: default, labelled, short / open-by-value / short-by-value / nested sub-circuits, container in container); all {len(ce.classes())} registered element "
+                 f"({len(tv)} variants: default, labelled, short / open-by-value / short-by-value / nested sub-circuits, two resistive phases, container in container; the last three kinds only in the contexts part); all {len(ce.classes())} registered element "
                  f"types (plain and labelled) and all container variants in {n_ctx} contexts; {n_rand} random circuits with 6..{10 if a.tier == 'quick' else 14} leaves; to_drawing on 1/{CTX['DRAW_MOD']} of the cases "
                  "and on every element type; only circuits whose get_impedances succeeds at 1e-6, 3.7 and 1e9 Hz are judged",
                  "shapes = ordered S/P trees incl. same-kind nesting and one-child connections; leaves = cartesian power of the alphabet (variant inside a class chosen by the case index); a case = one "
@@ -290,8 +302,10 @@ def main(a):
     allf = []
     with mp.get_context("fork").Pool(16) as pool:
         for part, out in pool.imap_unordered(run_job, [jobs[i] for i in order]):
-            res.evaluations += out["n"]
-            res.distinct.update(out["digests"])
+            for dg in out["digests"]:
+                res.case(dg, True)
+            for _ in range(out["n"] - len(out["digests"])):
+                res.case(None, False)          # outside the property's quantifier (reference undefined / cannot be simulated)
             p = res.parts.setdefault(part, {"cases": 0})
             p["cases"] += out["n"]
             for k, v in out["counters"].items():
